@@ -20,7 +20,15 @@ thread_local! {
     static AMBIENT_READS: RefCell<Vec<ReadRec>> = const { RefCell::new(Vec::new()) };
 }
 
-const AMBIENT_VALUES: &[&str] = &["corpus/Asia/Tokyo", "Asia/Tokyo", "UTC", "Europe/Paris", ":Europe/Paris", "localtime", "/usr/share/zoneinfo/UTC", "EST5EDT", " UTC ", "Nonexistent/Zone", "<+03>-3", "", ":", "/etc/localtime", ":/etc/localtime", "posixrules", "right/UTC", "Etc/GMT+5", "CET-1CEST,M3.5.0,M10.5.0/3", "UTC0", " UTC0\n", ":Nonexistent/Zone", "Europe", "/nonexistent/abs"];
+const AMBIENT_VALUES: &[&str] = &["corpus/Asia/Tokyo", "Asia/Tokyo", "UTC", "Europe/Paris", ":Europe/Paris", "localtime", "/usr/share/zoneinfo/UTC", "EST5EDT", " UTC ", "Nonexistent/Zone", "<+03>-3", "", ":", "/etc/localtime", ":/etc/localtime", "posixrules", "right/UTC", "Etc/GMT+5", "CET-1CEST,M3.5.0,M10.5.0/3", "UTC0", " UTC0\n", ":Nonexistent/Zone", "Europe", "/nonexistent/abs",
+    // real files of the harness's own tree: empty, not a TZif file, cut short, a directory
+    ":@CORPUS/../ambient/empty", "@CORPUS/../ambient/empty", "@CORPUS/../ambient/garbage", ":@CORPUS/../ambient/truncated", "@CORPUS/../ambient/dir", ":@CORPUS/../ambient/dir", "::@CORPUS/UTC", ":@CORPUS/UTC"];
+
+/// the `k`-th ambient TZ value ("@CORPUS" = the vendored tree)
+fn ambient_value(args: &[i64]) -> String {
+    let v = AMBIENT_VALUES[(args.first().copied().unwrap_or(0).unsigned_abs() % AMBIENT_VALUES.len() as u64) as usize];
+    harness(|| v.replace("@CORPUS", &std::env::var("TZSIM_CORPUS").unwrap_or_else(|_| "/verif/corpus".into())))
+}
 
 /// std::fs::read with a record of what was asked (for the ambient, real-filesystem operations)
 fn ambient_read(path: &str) -> Result<Vec<u8>, Box<dyn std::error::Error + Send + Sync + 'static>> {
@@ -1259,7 +1267,8 @@ pub fn run_op<'c>(ctx: &'c Ctx<'c>, me: usize, st: &mut ActorState<'c>, opi: usi
             // real-filesystem operations (fixed list, not part of the seeded search): the hard-wired
             // default settings must behave exactly like explicit settings with the default directories
             // and a recording std::fs::read, and the recorded opens must satisfy the reference resolver
-            let v = AMBIENT_VALUES[(args.first().copied().unwrap_or(0).unsigned_abs() % AMBIENT_VALUES.len() as u64) as usize];
+            let v = ambient_value(args);
+            let v: &str = &v;
             let local = kind == "ambient_local";
             AMBIENT_READS.with(|r| r.borrow_mut().clear());
             let (a, _m) = measured(false, || if local { TimeZone::local() } else { TimeZone::from_posix_tz(v) });
@@ -1278,7 +1287,11 @@ pub fn run_op<'c>(ctx: &'c Ctx<'c>, me: usize, st: &mut ActorState<'c>, opi: usi
                     let (ra, rb) = (Res::of(a), Res::of(b));
                     let same = match (&ra, &rb) {
                         (Res::Ok(x), Res::Ok(y)) => x == y,
-                        (Res::ErrIo, Res::ErrIo) => true,
+                        // same machine, same file, same moment: the text of the I/O error must agree as well
+                        (Res::ErrIo, Res::ErrIo) => match (a, b) {
+                            (Err(x), Err(y)) => x.to_string() == y.to_string(),
+                            _ => true,
+                        },
                         (Res::ErrTz(x), Res::ErrTz(y)) => x == y,
                         _ => false,
                     };
@@ -1393,6 +1406,10 @@ pub fn run_op<'c>(ctx: &'c Ctx<'c>, me: usize, st: &mut ActorState<'c>, opi: usi
                     // pseudo-variable: the process's current working directory
                     let _ = HOME_DIR.get_or_init(|| std::env::current_dir().unwrap_or_else(|_| "/".into()));
                     let _ = std::env::set_current_dir(&val);
+                } else if key == "DECOYS" {
+                    for k in DECOY_VARS {
+                        std::env::set_var(k, &val);
+                    }
                 } else {
                     std::env::set_var(key, &val);
                 }
@@ -1405,7 +1422,13 @@ pub fn run_op<'c>(ctx: &'c Ctx<'c>, me: usize, st: &mut ActorState<'c>, opi: usi
         }
         Op::UnsetEnv { key } => {
             if env_key_ok(key) && key != "CWD" {
-                std::env::remove_var(key);
+                if key == "DECOYS" {
+                    for k in DECOY_VARS {
+                        std::env::remove_var(k);
+                    }
+                } else {
+                    std::env::remove_var(key);
+                }
                 if let Some(w) = lock().as_mut() {
                     w.stats.fault("env_flip");
                     w.ev(0, format!("world unsetenv {key}"));
@@ -1469,8 +1492,19 @@ pub fn run_op<'c>(ctx: &'c Ctx<'c>, me: usize, st: &mut ActorState<'c>, opi: usi
 }
 
 fn env_key_ok(k: &str) -> bool {
-    matches!(k, "TZ" | "TZDIR" | "LANG" | "LC_ALL" | "LC_TIME" | "CWD")
+    matches!(k, "TZ" | "TZDIR" | "LANG" | "LC_ALL" | "LC_TIME" | "CWD" | "DECOYS")
 }
+
+/// Variables a time-zone library might be tempted to consult besides TZ (pseudo-variable DECOYS sets
+/// them all at once to one value): whoever reads the environment block directly, without a libc call
+/// the system-call seam could count, gives itself away by behaving differently.
+pub const DECOY_VARS: &[&str] = &[
+    "ZONEINFO", "TZDATA", "TZ_DIR", "ZONEINFO_DIR", "ZONEDIR", "TZPATH", "PYTHONTZPATH", "ANDROID_ROOT", "ANDROID_DATA", "ANDROID_TZDATA_ROOT",
+    "ANDROID_I18N_ROOT", "HOME", "XDG_DATA_HOME", "XDG_DATA_DIRS", "XDG_CONFIG_HOME", "TMPDIR", "TEMP", "TMP", "PREFIX", "SYSROOT", "DESTDIR",
+    "LOCALTIME", "ETC_LOCALTIME", "TZFILE", "TIMEZONE", "TIME_ZONE", "LANGUAGE", "LC_MESSAGES", "POSIXLY_CORRECT", "TZ_RS_DIR", "TZ_RS_ZONEINFO",
+    "TZRS_DIR", "TZ_LOCALTIME", "TZ_EXTENSIONS", "TZ_STRICT", "NIX_TZDIR", "SNAP", "APPDIR", "CONDA_PREFIX", "VIRTUAL_ENV", "USERPROFILE", "SystemRoot",
+    "windir", "TZDEFAULT", "TZDEFRULES", "TZDIR_OVERRIDE", "ZONEINFO_PATH", "TZ_DATA", "TZDATA_DIR", "ICU_TIMEZONE_FILES_DIR",
+];
 
 fn oracle_trim(s: &str) -> String {
     crate::oracle::trim_ascii_ws(s).to_string()
@@ -1523,7 +1557,7 @@ fn finish_query(armed: &Armed, op: &Op, q: &QueryOut, retained: &mut Option<(isi
 static HOME_DIR: std::sync::OnceLock<std::path::PathBuf> = std::sync::OnceLock::new();
 
 fn reset_env() {
-    for k in ["TZ", "TZDIR", "LANG", "LC_ALL", "LC_TIME"] {
+    for k in ["TZ", "TZDIR", "LANG", "LC_ALL", "LC_TIME"].iter().chain(DECOY_VARS.iter()) {
         std::env::remove_var(k);
     }
     // the working directory is process-global state too
@@ -1749,7 +1783,8 @@ fn alone_in_process(rec: &OpRec) -> Option<(String, Option<String>)> {
         }
         Op::Construct { kind, args } if kind == "ambient_tz" || kind == "ambient_local" => {
             // environment and working directory are back at their baseline here: the answer must not move
-            let v = AMBIENT_VALUES[(args.first().copied().unwrap_or(0).unsigned_abs() % AMBIENT_VALUES.len() as u64) as usize];
+            let v = ambient_value(args);
+            let v: &str = &v;
             let local = kind == "ambient_local";
             let a = catch_unwind(AssertUnwindSafe(|| if local { TimeZone::local() } else { TimeZone::from_posix_tz(v) }));
             let b = catch_unwind(AssertUnwindSafe(|| {
